@@ -3,6 +3,7 @@
 -/
 import Verif.Model.C03
 import Verif.Lemmas.C01
+import Verif.Props.C01
 
 namespace Verif.C03
 open Verif.Py
@@ -711,7 +712,7 @@ theorem frameRanges_excl (w : Wave) (hdt : 0 < w.dt) (hs : 0 ≤ w.start) (k : N
     | n + 1, _ =>
       simp only [List.range_succ_eq_map, List.map_cons, List.headD_cons, Option.map_some]
       rw [getD_map_range _ _ _ h0]
-      simp [List.range_succ_eq_map]
+      simp
   · rw [if_neg h1]; simp
 
 theorem frameRanges_incl_multi (w : Wave) (k : Nat) (hdt : 0 < w.dt)
@@ -1027,13 +1028,13 @@ theorem pixelSums_used : ∀ (iw : List Nat) (data : List Int) (acc : Int),
   | c :: cs, x :: xs, acc => by
     by_cases h0 : c = 0
     · subst h0
-      simp only [pixelSums, usedOf, if_true, List.filter_cons]
+      simp only [pixelSums, usedOf, if_true]
       simpa using pixelSums_used cs xs acc
     · by_cases h2 : c = 2
       · subst h2
         simp only [pixelSums, usedOf, List.filter_cons]
         simp [pixelSums, pixelSums_used cs xs 0]
-      · have hf : (c :: cs).filter (· ≠ 0) = c :: cs.filter (· ≠ 0) := by simp [List.filter_cons, h0]
+      · have hf : (c :: cs).filter (· ≠ 0) = c :: cs.filter (· ≠ 0) := by simp [h0]
         rw [hf]
         simp only [pixelSums, usedOf, if_neg h0, if_neg h2]
         exact pixelSums_used cs xs (acc + x)
@@ -1185,5 +1186,258 @@ theorem Wave.Regular.numPix {w : Wave} {k m r : Nat} (h : w.Regular k m r) :
   rw [h.used_length]
   obtain ⟨hk, hm, hr, hs⟩ := h
   rw [Nat.mul_comm, Nat.mul_add_div hk, Nat.div_eq_of_lt hr]; omega
+
+/-! ## windows on the raw stream, keyed -/
+
+theorem Sep.of_key_lt {β} {δ : Int} (hδ : 0 < δ) {key : β → Int} {l : List β} (h : Sep δ key l)
+    {x y : β} (hx : x ∈ l) (hy : y ∈ l) (hxy : key x < key y) : key x + δ ≤ key y := by
+  rcases List.getElem_of_mem hx with ⟨i, hi, rfl⟩
+  rcases List.getElem_of_mem hy with ⟨j, hj, rfl⟩
+  rcases Nat.lt_trichotomy i j with hij | hij | hij
+  · exact h.getElem_lt hj hij
+  · subst hij; omega
+  · have := h.getElem_lt hi hij
+    omega
+
+theorem sublist_eq_filter_key {β} {δ : Int} (hδ : 0 < δ) (key : β → Int) {l l' : List β}
+    (hsep : Sep δ key l) (hs : l'.Sublist l) :
+    l' = l.filter (fun s => decide (key s ∈ l'.map key)) := by
+  induction hs with
+  | slnil => simp
+  | @cons l₁ l₂ a hs ih =>
+    have hsep' : Sep δ key l₂ := (List.pairwise_cons.mp hsep).2
+    have ha : key a ∉ l₁.map key := by
+      intro hmem
+      rcases List.mem_map.mp hmem with ⟨x, hx, hxe⟩
+      have := (List.pairwise_cons.mp hsep).1 x (hs.subset hx)
+      omega
+    rw [List.filter_cons, if_neg (by simpa using ha)]
+    exact ih hsep'
+  | @cons_cons l₁ l₂ a hs ih =>
+    have hsep' : Sep δ key l₂ := (List.pairwise_cons.mp hsep).2
+    rw [List.filter_cons, if_pos (by simp)]
+    congr 1
+    have ih := ih hsep'
+    conv => lhs; rw [ih]
+    apply List.filter_congr
+    intro x hx
+    have hne : key x ≠ key a := by
+      have := (List.pairwise_cons.mp hsep).1 x hx
+      omega
+    simp [hne]
+
+/-- the keyed, raw-stream version of `filter_window`: when no element of the full stream `SP` with a
+    key between those of `UP[a]` and `UP[b]` is missing from the sub-stream `UP`, the window selects
+    `UP[a … b]` from the full stream -/
+theorem window_raw {β} (δ dt : Int) (h1 : 1 ≤ δ) (h2 : δ ≤ dt) (key : β → Int) (SP UP : List β)
+    (hsep : Sep dt key SP) (hsub : UP.Sublist SP) (a b : Nat) (hab : a ≤ b) (hb : b < UP.length)
+    (lo hi : Int) (hlo : lo = key (UP[a]'(by omega))) (hhi : hi = key UP[b])
+    (hcont : ∀ s ∈ SP, lo ≤ key s → key s ≤ hi → key s ∈ UP.map key) :
+    SP.filter (fun s => decide (lo ≤ key s) && decide (key s < hi + δ)) = (UP.drop a).take (b + 1 - a) := by
+  have hdt : 0 < dt := by omega
+  rw [← filter_window δ h1 key UP ((hsep.sublist hsub).mono h2) a b hab hb lo hi hlo hhi]
+  conv => rhs; rw [sublist_eq_filter_key hdt key hsep hsub, List.filter_filter]
+  apply List.filter_congr
+  intro s hsm
+  by_cases hr : lo ≤ key s ∧ key s < hi + δ
+  · have hle : key s ≤ hi := by
+      rcases Int.lt_or_le hi (key s) with h | h
+      · have hbm : UP[b] ∈ SP := hsub.subset (List.getElem_mem _)
+        have := hsep.of_key_lt hdt hbm hsm (by omega)
+        omega
+      · exact h
+    have := hcont s hsm hr.1 hle
+    simp [hr.1, hr.2, this]
+  · have : ¬(lo ≤ key s) ∨ ¬(key s < hi + δ) := by
+      by_cases h : lo ≤ key s
+      · right; intro h'; exact hr ⟨h, h'⟩
+      · left; exact h
+    rcases this with h | h <;> simp [h]
+
+/-! ## sums over blocks of rows -/
+
+theorem sum_rows_block (X : List Int) (k j0 : Nat) : ∀ (n : Nat),
+    ((X.drop (j0 * k)).take (n * k)).sum
+      = ((List.range n).map fun r => ((X.drop ((j0 + r) * k)).take k).sum).sum
+  | 0 => by simp
+  | n + 1 => by
+    have e : (n + 1) * k = n * k + k := by rw [Nat.add_mul]; omega
+    rw [e, List.take_add, List.sum_append, sum_rows_block X k j0 n, List.range_succ, List.map_append,
+      List.sum_append, List.drop_drop]
+    have : j0 * k + n * k = (j0 + n) * k := by rw [Nat.add_mul]
+    simp [this]
+
+theorem sum_range_zero_tail (f : Nat → Int) (n' : Nat) : ∀ (P : Nat), n' ≤ P →
+    (∀ r, n' ≤ r → r < P → f r = 0) → ((List.range P).map f).sum = ((List.range n').map f).sum
+  | 0, h, _ => by have : n' = 0 := by omega
+                  subst this; rfl
+  | P + 1, h, hz => by
+    rcases Nat.eq_or_lt_of_le h with h' | h'
+    · rw [h']
+    · rw [List.range_succ, List.map_append, List.sum_append,
+        sum_range_zero_tail f n' P (by omega) (fun r h1 h2 => hz r h1 (by omega))]
+      simp [hz P (by omega) (by omega)]
+
+/-! ## both sides of `sum_over_ranges_eq_image` -/
+
+/-- total of the used data of block `l` (positions `l·P·k … min((l+1)·P, m)·k − 1` of the used stream) -/
+def blockSum (UD : List Int) (k m P l : Nat) : Int :=
+  ((UD.drop (l * P * k)).take ((min ((l + 1) * P) m - l * P) * k)).sum
+
+/-- image side: block totals of the zero-padded chunk sums -/
+theorem lineTotals_rows (UD : List Int) (k m P : Nat) (hP : 0 < P) :
+    lineTotals P ((takeRows k m UD).map List.sum) = (List.range (numBlocks m P)).map (blockSum UD k m P) := by
+  unfold lineTotals
+  rw [padRows_eq, List.map_map]
+  simp only [List.length_map, takeRows_eq_map_range, List.length_range]
+  apply List.map_congr_left
+  intro l hl
+  have hl := (lt_numBlocks_iff _ _ _ hP).mp (List.mem_range.mp hl)
+  simp only [Function.comp, blockSum]
+  have hP1 : (l + 1) * P = l * P + P := by rw [Nat.add_mul]; omega
+  rw [sum_range_zero_tail _ (min ((l + 1) * P) m - l * P) P (by omega)]
+  · rw [sum_rows_block]
+    congr 1
+    apply List.map_congr_left
+    intro r hr
+    have hr := List.mem_range.mp hr
+    rw [List.map_map, getD_map_range _ _ _ (by omega)]
+    rfl
+  · intro r h1 h2
+    rw [List.getD_eq_getElem?_getD, List.getElem?_eq_none (by simp; omega)]
+    rfl
+
+theorem samplesFrom_fst (dt : Int) : ∀ (l : List Int) (t0 : Int),
+    (C01.samplesFrom t0 dt l).map (·.1) = times t0 dt l.length
+  | [], _ => rfl
+  | v :: vs, t0 => by simp [C01.samplesFrom, times, samplesFrom_fst dt vs (t0 + dt)]
+
+theorem samplesFrom_snd (dt : Int) : ∀ (l : List Int) (t0 : Int),
+    (C01.samplesFrom t0 dt l).map (·.2) = l
+  | [], _ => rfl
+  | v :: vs, t0 => by simp [C01.samplesFrom, samplesFrom_snd dt vs (t0 + dt)]
+
+theorem times_stop (dt : Int) (hdt : 0 < dt) : ∀ (n : Nat) (t0 : Int),
+    ∀ y ∈ times t0 dt n, y + dt ≤ t0 + n * dt
+  | 0, _, y, h => by simp [times] at h
+  | n + 1, t0, y, h => by
+    simp only [times, List.mem_cons] at h
+    have e : ((n + 1 : Nat) : Int) * dt = n * dt + dt := by
+      rw [Int.natCast_add, Int.add_mul]; simp
+    have hn : 0 ≤ (n : Int) * dt := Int.mul_nonneg (by omega) (by omega)
+    rcases h with h | h
+    · omega
+    · have := times_stop dt hdt n (t0 + dt) y h; omega
+
+theorem filterMap_eq_map_of {α β} (f : α → Option β) (g : α → β) :
+    ∀ (L : List α), (∀ x ∈ L, f x = some (g x)) → L.filterMap f = L.map g
+  | [], _ => rfl
+  | a :: t, h => by
+    rw [List.filterMap_cons, h a (by simp), List.map_cons,
+      filterMap_eq_map_of f g t (fun x hx => h x (List.mem_cons_of_mem _ hx))]
+
+/-- channel side: `downsampled_over(line ranges, np.sum)` yields, for every line, the total of the
+    line's used data — provided no discarded sample lies inside a line -/
+theorem sumOver_blocks (w : Wave) (data : List Int) (hlen : data.length = w.iw.length)
+    (hdt : 0 < w.dt) (hs : 0 ≤ w.start) (k : Nat) (hk : w.pixelSize = some k) (P : Nat) (hP : 0 < P)
+    (δ : Int) (h1 : 1 ≤ δ) (h2 : δ ≤ w.dt)
+    (hcont : ∀ l, l < numBlocks (w.usedTs.length / k) P → ∀ t ∈ w.allTs,
+      w.usedTs.getD (l * P * k) 0 ≤ t →
+      t ≤ w.usedTs.getD (min ((l + 1) * P) (w.usedTs.length / k) * k - 1) 0 → t ∈ w.usedTs)
+    (rs : List (Int × Int)) (hrs : w.lineRangesExcl P δ = some rs) :
+    sumOver ⟨w.start, w.dt, data⟩ rs =
+      (List.range (numBlocks (w.usedTs.length / k) P)).map
+        (blockSum (usedOf w.iw data) k (w.usedTs.length / k) P) := by
+  have hk0 := pixelSize_pos w k hk
+  rw [lineRangesExcl_spec w hdt hs k hk P hP δ] at hrs
+  injection hrs with hrs
+  subst hrs
+  unfold Wave.numPix
+  -- the sample stream of the channel and its used part
+  have hSPfst : (C01.samplesFrom w.start w.dt data).map (·.1) = w.allTs := by
+    rw [samplesFrom_fst, hlen]; rfl
+  have hsepSP : Sep w.dt (fun s : C01.Sample => s.1) (C01.samplesFrom w.start w.dt data) := by
+    have := allTs_sep w hdt
+    rw [← hSPfst] at this
+    exact List.pairwise_map.mp this
+  have hUPfst : (usedOf w.iw (C01.samplesFrom w.start w.dt data)).map (·.1) = w.usedTs := by
+    rw [usedOf_map, hSPfst]; rfl
+  have hUPsnd : (usedOf w.iw (C01.samplesFrom w.start w.dt data)).map (·.2) = usedOf w.iw data := by
+    rw [usedOf_map, samplesFrom_snd]
+  have hUPlen : (usedOf w.iw (C01.samplesFrom w.start w.dt data)).length = w.usedTs.length := by
+    rw [← hUPfst, List.length_map]
+  -- facts per line
+  have key : ∀ l, l < numBlocks (w.usedTs.length / k) P →
+      (C01.Cont.slice ⟨w.start, w.dt, data⟩ (w.usedTs.getD (l * P * k) 0)
+        (w.usedTs.getD (min ((l + 1) * P) (w.usedTs.length / k) * k - 1) 0 + δ)).samples
+      = ((usedOf w.iw (C01.samplesFrom w.start w.dt data)).drop (l * P * k)).take
+          ((min ((l + 1) * P) (w.usedTs.length / k) - l * P) * k) ∧
+      0 < (min ((l + 1) * P) (w.usedTs.length / k) - l * P) * k ∧
+      l * P * k + (min ((l + 1) * P) (w.usedTs.length / k) - l * P) * k ≤ w.usedTs.length ∧
+      w.start ≤ w.usedTs.getD (l * P * k) 0 ∧
+      w.usedTs.getD (min ((l + 1) * P) (w.usedTs.length / k) * k - 1) 0 + δ
+        ≤ w.start + (data.length : Int) * w.dt := by
+    intro l hl
+    have hlt := (lt_numBlocks_iff _ _ _ hP).mp hl
+    have hP1 : (l + 1) * P = l * P + P := by rw [Nat.add_mul]; omega
+    have hmin : l * P + 1 ≤ min ((l + 1) * P) (w.usedTs.length / k) := by omega
+    have he1 : (l * P + 1) * k ≤ min ((l + 1) * P) (w.usedTs.length / k) * k := Nat.mul_le_mul_right _ hmin
+    have he2 : min ((l + 1) * P) (w.usedTs.length / k) * k ≤ w.usedTs.length / k * k :=
+      Nat.mul_le_mul_right _ (Nat.min_le_right _ _)
+    have he3 := Nat.div_mul_le_self w.usedTs.length k
+    rw [Nat.add_mul] at he1
+    have hsub : (min ((l + 1) * P) (w.usedTs.length / k) - l * P) * k
+        = min ((l + 1) * P) (w.usedTs.length / k) * k - 1 + 1 - l * P * k := by
+      rw [Nat.sub_mul]; omega
+    have ha : l * P * k < w.usedTs.length := by omega
+    have hb : min ((l + 1) * P) (w.usedTs.length / k) * k - 1 < w.usedTs.length := by omega
+    have hslice := C01.cont_slice_samples ⟨w.start, w.dt, data⟩ hdt (w.usedTs.getD (l * P * k) 0)
+      (w.usedTs.getD (min ((l + 1) * P) (w.usedTs.length / k) * k - 1) 0 + δ)
+    refine ⟨?_, by omega, by omega, ?_, ?_⟩
+    · rw [hslice, hsub]
+      have hlo : w.usedTs.getD (l * P * k) 0
+          = ((usedOf w.iw (C01.samplesFrom w.start w.dt data))[l * P * k]'(by rw [hUPlen]; omega)).1 := by
+        rw [getD_eq _ _ ha]
+        simp only [← hUPfst, List.getElem_map]
+      have hhi : w.usedTs.getD (min ((l + 1) * P) (w.usedTs.length / k) * k - 1) 0
+          = ((usedOf w.iw (C01.samplesFrom w.start w.dt data))[min ((l + 1) * P) (w.usedTs.length / k) * k - 1]'(by rw [hUPlen]; omega)).1 := by
+        rw [getD_eq _ _ hb]
+        simp only [← hUPfst, List.getElem_map]
+      exact window_raw δ w.dt h1 h2 (fun s : C01.Sample => s.1) _ _ hsepSP (usedOf_sublist _ _) (l * P * k)
+        (min ((l + 1) * P) (w.usedTs.length / k) * k - 1) (by omega) (by rw [hUPlen]; omega) _ _ hlo hhi
+        (fun s hsm hl1 hl2 => by
+          rw [hUPfst]
+          exact hcont l hl s.1 (by rw [← hSPfst]; exact List.mem_map_of_mem hsm) hl1 hl2)
+    · rw [getD_eq _ _ ha]
+      exact usedTs_ge w hdt _ (List.getElem_mem _)
+    · rw [getD_eq _ _ hb, hlen]
+      have hmem : w.usedTs[min ((l + 1) * P) (w.usedTs.length / k) * k - 1] ∈ w.allTs :=
+        (usedTs_sublist w).subset (List.getElem_mem _)
+      have := times_stop w.dt hdt _ _ _ hmem
+      omega
+  unfold sumOver
+  rw [List.filter_eq_self.mpr]
+  · rw [List.filterMap_map]
+    apply filterMap_eq_map_of
+    intro l hl
+    have hl := List.mem_range.mp hl
+    obtain ⟨hsl, hpos, hle, _, _⟩ := key l hl
+    simp only [Function.comp]
+    rw [hsl]
+    have hne : ((usedOf w.iw (C01.samplesFrom w.start w.dt data)).drop (l * P * k)).take
+        ((min ((l + 1) * P) (w.usedTs.length / k) - l * P) * k) ≠ [] := by
+      intro h
+      have := congrArg List.length h
+      simp only [List.length_take, List.length_drop, List.length_nil, hUPlen] at this
+      omega
+    rw [if_neg (by simpa using hne)]
+    simp only [blockSum, List.map_take, List.map_drop, hUPsnd]
+  · intro r hr
+    rcases List.mem_map.mp hr with ⟨l, hl, rfl⟩
+    have hl := List.mem_range.mp hl
+    obtain ⟨_, _, _, hc1, hc2⟩ := key l hl
+    simp only [C01.Cont.stop]
+    rw [Bool.and_eq_true]
+    exact ⟨decide_eq_true hc1, decide_eq_true hc2⟩
 
 end Verif.C03
